@@ -85,7 +85,8 @@ def random_callset(rng, nsamples=None, nrecords=None, p_missing=None, p_multi=No
         if rng.random() < 0.1 and ci < ncontig - 1:
             ci += 1
         contig = contigs[ci][0]
-        pos[contig] += rng.randint(1, 50)
+        # several records may share one position (split multiallelic sites, overlapping indels)
+        pos[contig] += 0 if (pos[contig] > 0 and rng.random() < 0.08) else rng.randint(1, 50)
         style = rng.random()
         if style < 0.08 and not complete_only:
             alts, max_allele = [], 0          # monomorphic record without ALT
